@@ -124,6 +124,7 @@ def run_oracle_all(ctx, stream, ops):
         if v.startswith("FAIL") and i < len(cases):
             ctx.count("oracle.%s.fail" % stream)
             fp, what, robj = _fail_to_violation(stream, v, cases[i], None)
+            ctx.count("oracle.%s.fail.%s" % (stream, fp if ":other" not in fp else v.split()[1] + ":other"))
             ctx.violation(fp, what, robj, True)
 
 
@@ -155,6 +156,11 @@ def hyps_coverage(ctx, stream, ops):
             if f["compiled"] != f["spec"]:
                 ctx.tie_broken("theorem-instance:compile_all_exact",
                                "hypotheses hold but the Lean decisions differ: " + l)
+            # ext_authz_asked_chain: ... and, with isolated provider names, the ext_authz filters enabled are those of the
+            # providers the statement says must be asked
+            if f.get("iso") == "1" and f.get("ext") != f.get("ask"):
+                ctx.tie_broken("theorem-instance:ext_authz_asked_chain",
+                               "hypotheses hold but the Lean driver's ext_authz set differs from the statement's: " + l)
             if f["tr"] == "1":
                 exact += 1
     ctx.count("hyps.%s.requests" % stream, n)
@@ -185,7 +191,18 @@ def run(ctx):
         "trust-domain bundle without '*' / '/' entries (mesh config validation admits DNS-label trust domains only); principal values "
         "with '*', wildcard-free and '*suffix' trust-domain parts are inside migration_sem, a 'prefix*' part is finding 5, "
         "`when source.principal` values with a '*suffix' part and two or more `from` entries are tied by the differential only",
-        "CUSTOM: the external authorizer is taken to allow; only gRPC extension providers are modelled",
+        "CUSTOM: the external authorizer's answer is outside the statement (taken to allow for the decision); WHO is asked is "
+        "inside (ext_authz_asked_chain, oracle clause authorizer-asked); gRPC and HTTP extension providers are driven, the "
+        "ext_authz filter's service config beyond its filter_enabled_metadata matcher is not compared (only ValidateAll'ed)",
+        "JWT: request.auth.principal is defined when iss and sub are non-empty strings; the exactness theorem for requestPrincipals "
+        "additionally assumes no '/' in sub (hypothesis jwtOK, per matcher); claim values that are numbers / bools match nothing",
+        "path templates: statement and model share one segment matcher (templateMatch); the Go interpreter evaluates them "
+        "independently by regex translation",
+        "service registries other than Kubernetes / External are not modelled (a waypoint service is one of the two)",
+        "the main theorems' decidable hypotheses hold on about 88% of the generated (policy, request) pairs; outside them the tie is "
+        "the differential and the oracle only",
+        "Envoy accepts the generated config: protoc-gen-validate constraints (ValidateAll on every built RBAC / ext_authz filter); "
+        "constraints Envoy checks only at runtime are not covered",
     ]
     ctx.trusted.append("lean/IstioModel/C08/Envoy.lean: Envoy RBAC semantics written from documentation (not executed against Envoy)")
     ctx.trusted.append("harness/c08/interp.go + spec.go: Go reference RBAC interpreter (regex via Go regexp/RE2) and Go transcription of the statement")
@@ -220,6 +237,15 @@ def run(ctx):
                     k, _, n = l.rpartition(" ")
                     if k and n.isdigit():
                         ctx.count("%s.gen.%s" % (stream, k), int(n))
+    # decision mix of the judged requests (implementation side): <generated filters> <statement>, authorizer asked or not
+    for stream in ("requests", "tcp"):
+        impl = os.path.join(ctx.work, "%s.run.impl" % stream)
+        if os.path.exists(impl):
+            for l in ctx.read_lines(impl):
+                t = l.split()
+                if len(t) >= 4 and t[0] in ("allow", "deny") and t[1] in ("allow", "deny"):
+                    ctx.count("%s.decision.compiled-%s.statement-%s" % (stream, t[0], t[1]))
+                    ctx.count("%s.decision.authorizer-%s" % (stream, "asked" if t[2] != "ext=-" else "not-asked"))
     # count validator verdicts of the generated cases
     for stream in STREAMS:
         g = os.path.join(ctx.work, "%s.gen.ops" % stream)
@@ -230,20 +256,28 @@ def run(ctx):
 
 
 def replay(ctx, path):
-    with open(path, "rb") as f:
-        original = f.read()
+    # a replay run re-records the violation under the name derived from its fingerprint: never rewrite a replay file
+    # that existed before - neither the file that is replayed nor (when a COPY is replayed) the original it came from
+    rdir = os.path.join(os.path.dirname(os.path.dirname(os.path.abspath(__file__))), "replays")
+    before = {}
+    for p in [path] + ([os.path.join(rdir, f) for f in os.listdir(rdir) if f.startswith(ctx.pid + "-")] if os.path.isdir(rdir) else []):
+        try:
+            with open(p, "rb") as f:
+                before[p] = f.read()
+        except OSError:
+            pass
     try:
         return _replay(ctx, path)
     finally:
-        # a replay run re-records the violation under the same name: never rewrite the file that was replayed
-        try:
-            with open(path, "rb") as f:
-                changed = f.read() != original
-            if changed:
-                with open(path, "wb") as f:
-                    f.write(original)
-        except OSError:
-            pass
+        for p, original in before.items():
+            try:
+                with open(p, "rb") as f:
+                    changed = f.read() != original
+                if changed:
+                    with open(p, "wb") as f:
+                        f.write(original)
+            except OSError:
+                pass
 
 
 def _replay(ctx, path):
